@@ -211,6 +211,33 @@ def unit_awaiting(eng):
         b = new_deferred(eng, INT, Builtin("b", lambda e: e.call(dcls(e, "wait"), [h["a"]], {})))
         h.update(a=a, b=b)
         return eng.call(dcls(eng, "wait"), [a], {})
+    def run_spec(eng):
+        # a value that is being computed is needed again while something is only tried out (try_compute): "not yet", not a cycle - the
+        # attempt is abandoned with NotReadyError and nothing is reported; asked for in earnest, the same situation is DeferredCycle
+        real(eng)
+        d = new_deferred(eng, INT, counter_fn(eng, 1, []))
+        aw = eng.call(dcls(eng, "Awaiting"), [d], {})
+        eng.call(eng.getattr(aw, "__enter__"), [], {})
+        tc = eng.resolve_global(eng.load_module("deferred"), "try_compute")
+        eng.call(eng.getattr(tc, "__enter__"), [], {})
+        try:
+            try:
+                eng.call(eng.getattr(eng.call(dcls(eng, "Awaiting"), [d], {}), "__enter__"), [], {})
+                inner = "entered"
+            except PyRaise as pr:
+                inner = pr.exc.cls
+        finally:
+            eng.call(eng.getattr(tc, "__exit__"), [None, None, None], {})
+        try:
+            eng.call(eng.getattr(eng.call(dcls(eng, "Awaiting"), [d], {}), "__enter__"), [], {})
+            outer = "entered"
+        except PyRaise as pr:
+            outer = pr.exc.cls
+        eng.call(eng.getattr(aw, "__exit__"), [None, None, None], {})
+        return inner, outer, module_state(eng)
+    out.append(verify(eng, "Awaiting[busy value while speculating]", run_spec, lambda eng, o: eng.prove(
+        "a-busy-value-needed-while-speculating-is-NotReadyError(no premature recursive-definition)-and-DeferredCycle-when-asked-in-earnest",
+        o == ("return", ("NotReadyError", "DeferredCycle", (0, 0)))), func="deferred.Awaiting.__enter__"))
     out.append(verify(eng, "Awaiting[2-cycle]", run_cycle2, lambda eng, o: eng.prove("mutual-dependency-raises-DeferredCycle-and-restores-state",
                       o[0] == "raise" and o[1].cls == "DeferredCycle" and module_state(eng) == (0, 0)), func="deferred.Awaiting.__enter__"))
     return out
